@@ -36,6 +36,9 @@ pub struct AbsKytea {
     pub type_ngrams: Vec<(String, Vec<i16>)>,
     pub dict_vec: Vec<i16>,
     pub words: Vec<(String, u8)>,
+    /// not part of the textual description: when non-zero, the encoder fills the parts of the file that the conversion
+    /// reads and ignores (tag models, global tags, self/subword dictionaries, tag vectors) with content derived from it
+    pub junk: u64,
 }
 
 fn ints(v: &[i16]) -> String {
@@ -190,12 +193,63 @@ impl AbsKytea {
         }
     }
 
+    fn junk_word(&self, jr: &mut Rng) -> String {
+        let cs: Vec<char> = self.char_map.chars().collect();
+        (0..jr.range(1, 3)).map(|_| *jr.pick(&cs)).collect()
+    }
+
+    fn junk_keys(&self, jr: &mut Rng, max: i64) -> Vec<String> {
+        let mut keys: Vec<String> = vec![];
+        for _ in 0..jr.range(1, max) {
+            let w = self.junk_word(jr);
+            if !keys.contains(&w) {
+                keys.push(w);
+            }
+        }
+        keys
+    }
+
+    /// an `Option<LinearModel>` that the conversion reads and ignores
+    fn put_junk_linear(&self, out: &mut Vec<u8>, jr: &mut Rng) {
+        let n_classes = jr.below(4) as u32;
+        out.extend(n_classes.to_le_bytes());
+        if n_classes == 0 {
+            return;
+        }
+        out.push(jr.below(8) as u8); // solver type
+        for _ in 0..n_classes {
+            out.extend((jr.range(-3, 3) as i32).to_le_bytes());
+        }
+        out.push(jr.below(2) as u8); // bias
+        out.extend((jr.range(1, 1000) as f64 / 7.0).to_le_bytes()); // multiplier
+        if jr.chance(1, 2) {
+            out.push(0); // feature lookup inactive
+            return;
+        }
+        out.push(1);
+        for _ in 0..3 {
+            if jr.chance(1, 2) {
+                self.put_dictionary(out, 0, &[], |_, _| {});
+            } else {
+                let keys = self.junk_keys(jr, 3);
+                let vals: Vec<Vec<i16>> = keys.iter().map(|_| (0..jr.below(4)).map(|_| jr.range(-9, 9) as i16).collect()).collect();
+                self.put_dictionary(out, jr.below(3) as u8, &keys, |o, i| Self::put_i16s(o, &vals[i]));
+            }
+        }
+        for _ in 0..4 {
+            let v: Vec<i16> = (0..jr.below(4)).map(|_| jr.range(-9, 9) as i16).collect();
+            Self::put_i16s(out, &v);
+        }
+    }
+
     /// the KyTea binary model file for this description
     pub fn encode(&self) -> Vec<u8> {
+        let j = self.junk != 0;
+        let mut jr = Rng::new(self.junk);
         let mut out = vec![];
         out.extend(b"KyTea 0.4.7 B UTF-8\n"); // model tag line
         out.push(1); // do_ws
-        out.push(0); // do_tags
+        out.push(if j { jr.below(2) as u8 } else { 0 }); // do_tags
         out.extend(self.n_tags.to_le_bytes());
         out.extend([self.char_w, self.char_n, self.type_w, self.type_n, self.dict_n]);
         out.push(1); // bias
@@ -215,25 +269,60 @@ impl AbsKytea {
         self.put_dictionary(&mut out, 0, &ckeys, |o, i| Self::put_i16s(o, &self.char_ngrams[i].1));
         let tkeys: Vec<String> = self.type_ngrams.iter().map(|x| x.0.replace('4', "\u{4}")).collect();
         self.put_dictionary(&mut out, 0, &tkeys, |o, i| Self::put_i16s(o, &self.type_ngrams[i].1));
-        self.put_dictionary(&mut out, 0, &[], |_, _| {}); // self dictionary: absent
+        if j && jr.chance(2, 3) {
+            // self dictionary with entries (read and ignored)
+            let keys = self.junk_keys(&mut jr, 4);
+            let vals: Vec<Vec<i16>> = keys.iter().map(|_| (0..jr.below(5)).map(|_| jr.range(-99, 99) as i16).collect()).collect();
+            self.put_dictionary(&mut out, jr.below(3) as u8, &keys, |o, i| Self::put_i16s(o, &vals[i]));
+        } else {
+            self.put_dictionary(&mut out, 0, &[], |_, _| {}); // self dictionary: absent
+        }
         Self::put_i16s(&mut out, &self.dict_vec);
-        Self::put_i16s(&mut out, &[self.bias]);
-        Self::put_i16s(&mut out, &[]); // tag_dict_vec
-        Self::put_i16s(&mut out, &[]); // tag_unk_vec
+        if j && jr.chance(1, 2) {
+            // further biases after the first are ignored
+            let more: Vec<i16> = std::iter::once(self.bias).chain((0..jr.range(1, 3)).map(|_| jr.range(-99, 99) as i16)).collect();
+            Self::put_i16s(&mut out, &more);
+        } else {
+            Self::put_i16s(&mut out, &[self.bias]);
+        }
+        for _ in 0..2 {
+            // tag_dict_vec, tag_unk_vec
+            let v: Vec<i16> = if j { (0..jr.below(5)).map(|_| jr.range(-99, 99) as i16).collect() } else { vec![] };
+            Self::put_i16s(&mut out, &v);
+        }
         // global tags / models
         for _ in 0..self.n_tags {
-            out.extend(0u32.to_le_bytes()); // Vec<String> global tags
-            out.extend(0u32.to_le_bytes()); // no model (n_classes = 0)
+            if j {
+                let tags: Vec<String> = (0..jr.below(3)).map(|_| self.junk_word(&mut jr)).collect();
+                out.extend((tags.len() as u32).to_le_bytes());
+                for t in &tags {
+                    self.put_str(&mut out, t);
+                }
+                self.put_junk_linear(&mut out, &mut jr);
+            } else {
+                out.extend(0u32.to_le_bytes()); // Vec<String> global tags
+                out.extend(0u32.to_le_bytes()); // no model (n_classes = 0)
+            }
         }
         // dictionary of ModelTagEntry
         let wkeys: Vec<String> = self.words.iter().map(|x| x.0.clone()).collect();
-        self.put_dictionary(&mut out, self.n_dicts, &wkeys, |o, i| {
-            self.put_str(o, &self.words[i].0);
+        let mut entries: Vec<Vec<u8>> = vec![];
+        for i in 0..self.words.len() {
+            let mut o = vec![];
+            self.put_str(&mut o, &self.words[i].0);
             for t in 0..self.n_tags {
-                // one tag with an in-dictionary flag for the first slot, none otherwise
-                if t == 0 {
+                if j {
+                    let n = jr.below(3);
+                    o.extend((n as u32).to_le_bytes());
+                    for _ in 0..n {
+                        let w = self.junk_word(&mut jr);
+                        self.put_str(&mut o, &w);
+                        o.push(jr.below(256) as u8);
+                    }
+                } else if t == 0 {
+                    // one tag with an in-dictionary flag for the first slot, none otherwise
                     o.extend(1u32.to_le_bytes());
-                    self.put_str(o, &self.words[i].0);
+                    self.put_str(&mut o, &self.words[i].0);
                     o.push(1);
                 } else {
                     o.extend(0u32.to_le_bytes());
@@ -241,11 +330,37 @@ impl AbsKytea {
             }
             o.push(self.words[i].1);
             for _ in 0..self.n_tags {
-                o.extend(0u32.to_le_bytes()); // no tag model
+                if j {
+                    self.put_junk_linear(&mut o, &mut jr);
+                } else {
+                    o.extend(0u32.to_le_bytes()); // no tag model
+                }
             }
-        });
-        // subword dictionary: absent
-        self.put_dictionary(&mut out, 0, &[], |_, _| {});
+            entries.push(o);
+        }
+        self.put_dictionary(&mut out, self.n_dicts, &wkeys, |o, i| o.extend(&entries[i]));
+        if j && jr.chance(2, 3) {
+            // subword dictionary of ProbTagEntry (read and ignored)
+            let keys = self.junk_keys(&mut jr, 4);
+            let mut es: Vec<Vec<u8>> = vec![];
+            for k in &keys {
+                let mut o = vec![];
+                self.put_str(&mut o, k);
+                for _ in 0..self.n_tags {
+                    let n = jr.below(3);
+                    o.extend((n as u32).to_le_bytes());
+                    for _ in 0..n {
+                        let w = self.junk_word(&mut jr);
+                        self.put_str(&mut o, &w);
+                        o.extend((jr.range(0, 1000) as f64 / 1000.0).to_le_bytes());
+                    }
+                }
+                es.push(o);
+            }
+            self.put_dictionary(&mut out, jr.below(3) as u8, &keys, |o, i| o.extend(&es[i]));
+        } else {
+            self.put_dictionary(&mut out, 0, &[], |_, _| {}); // subword dictionary: absent
+        }
         out
     }
 
@@ -265,8 +380,20 @@ impl AbsKytea {
         let mut tg: Vec<&(String, Vec<i16>)> = self.type_ngrams.iter().collect();
         tg.sort_by(|a, b| a.0.replace('4', "\u{4}").cmp(&b.0.replace('4', "\u{4}")));
         for (g, w) in tg {
-            if g.contains('4') {
-                continue; // the documented workaround: such n-grams are skipped
+            // the conversion maps the UTF-8 bytes of the n-gram one by one: byte 4 skips the n-gram (the documented
+            // workaround), any other byte outside D R H T K O is rejected
+            let mut skip = false;
+            for b in g.replace('4', "\u{4}").bytes() {
+                if b == 4 {
+                    skip = true;
+                    break;
+                }
+                if !b"DRHTKO".contains(&b) {
+                    return Err("REJECT".into());
+                }
+            }
+            if skip {
+                continue;
             }
             let l = g.chars().count();
             let size = (2 * self.type_w as usize + 1).checked_sub(l).ok_or("n-gram longer than the window")?;
@@ -355,6 +482,11 @@ pub fn run(toks: &[&str], fails: &mut Vec<(String, String)>) -> String {
                                 fails.push(("C17".into(), format!("the converted model is {:?}, the file encodes {}", got.unwrap_or(r.clone()), exp.to_text())));
                             }
                         }
+                        Err(e) if e == "REJECT" => {
+                            if r != "err:invalid_model" {
+                                fails.push(("C17".into(), format!("a type n-gram with an unsupported character-type letter was not rejected as an invalid model: {}", &r[..r.len().min(60)])));
+                            }
+                        }
                         Err(_) => {} // the description is not a well-formed KyTea model: nothing is claimed
                     }
                 } else if k.expected().is_ok() && !r.starts_with("err:") {
@@ -367,6 +499,14 @@ pub fn run(toks: &[&str], fails: &mut Vec<(String, String)>) -> String {
             let Some(full) = unhex(h) else { return "bad-case".into() };
             let n = if *cut == "full" { full.len() } else { cut.parse::<usize>().unwrap_or(0).min(full.len()) };
             let r = convert(&full[..n]);
+            // optional expected result (files whose ignored parts carry content): KYX <hex> full <expected> c17
+            if let (true, [_, _, _, exp, _]) = (c17 && n == full.len(), toks) {
+                if *exp != "-" && r != *exp {
+                    let got = r.strip_prefix("ok:").and_then(unhex).and_then(|b| AbsModel::from_bytes(&b)).map(|m| m.to_text());
+                    let want = exp.strip_prefix("ok:").and_then(unhex).and_then(|b| AbsModel::from_bytes(&b)).map(|m| m.to_text());
+                    fails.push(("C17".into(), format!("the converted model is {:?}, the file encodes {:?}", got.unwrap_or(r.clone()), want.unwrap_or(exp.to_string()))));
+                }
+            }
             if c17 && n < full.len().saturating_sub(8) && !r.starts_with("err:") {
                 fails.push(("C17".into(), format!("the first {n} of {} bytes of the KyTea model file gave {}", full.len(), &r[..r.len().min(40)])));
             }
@@ -413,7 +553,8 @@ pub fn gen(out: &mut dyn std::io::Write, thorough: bool, seed: u64) {
         }
         for _ in 0..r.range(1, 12) {
             let l = r.range(1, 2 * k.type_w as i64) as usize;
-            let g: String = (0..l).map(|_| if r.chance(1, 25) { '4' } else { *r.pick(&['D', 'R', 'H', 'T', 'K', 'O']) }).collect();
+            let bad = r.chance(1, 12);
+            let g: String = (0..l).map(|_| if r.chance(1, 25) { '4' } else if bad && r.chance(1, 3) { *r.pick(&['a', 'あ', '1']) } else { *r.pick(&['D', 'R', 'H', 'T', 'K', 'O']) }).collect();
             if k.type_ngrams.iter().any(|x| x.0 == g) {
                 continue;
             }
@@ -438,6 +579,22 @@ pub fn gen(out: &mut dyn std::io::Write, thorough: bool, seed: u64) {
         let step = if thorough { 1 } else { (len / 60).max(1) };
         for cut in (0..len).step_by(step) {
             writeln!(out, "KY {text} {cut} c17").unwrap();
+        }
+        // the same model in a file whose ignored parts (tag models, global tags, self/subword dictionaries, tag vectors)
+        // carry content: the conversion must read past them and give the same result
+        for _ in 0..2 {
+            k.junk = r.next() | 1;
+            let bytes = k.encode();
+            let exp = match k.expected() {
+                Ok(m) => format!("ok:{}", hex(&m.to_bytes())),
+                Err(e) if e == "REJECT" => "err:invalid_model".to_string(),
+                Err(_) => "-".to_string(),
+            };
+            writeln!(out, "KYX {} full {exp} c17", hex(&bytes)).unwrap();
+            let step = if thorough { 1 } else { (bytes.len() / 40).max(1) };
+            for cut in (0..bytes.len()).step_by(step) {
+                writeln!(out, "KYX {} {cut} c17", hex(&bytes)).unwrap();
+            }
         }
     }
 }
